@@ -93,19 +93,379 @@ fn raw_attrs(xml: &str, tag: &str, attr: &str) -> Vec<String> {
     out
 }
 
+
+// ---------------------------------------------------------------- the `c04 norm` tie (see Umya/Driver/C04.lean)
+//
+// For generated workbooks the harness reads, per family, the MODEL-level value of the original workbook (the fields
+// with their has-value state, which the getters hide: taken from the `Debug` rendering) and of generation 1, in the
+// spec syntax of Umya/Driver/C06View.lean.  Request = `c04 norm <family> <spec of the original>`, the
+// implementation's reply = the spec of generation 1; the driver parses the original's spec, applies the model's
+// `norm` (the normal form `C04_fixpoint_<family>` / `normBook` are about) and prints it again.  A difference means
+// that the model's `norm` is not what one save + load does.
+
+thread_local! {
+    /// when set, every field "has a value": the specs then show what the GETTERS return (value or default)
+    static GETTER_LEVEL: std::cell::Cell<bool> = std::cell::Cell::new(false);
+}
+fn getter_level<T>(f: impl FnOnce() -> T) -> T {
+    GETTER_LEVEL.with(|g| g.set(true));
+    let r = f();
+    GETTER_LEVEL.with(|g| g.set(false));
+    r
+}
+fn has(d: &str, field: &str) -> bool {
+    if GETTER_LEVEL.with(|g| g.get()) {
+        return true;
+    }
+    for ty in ["BooleanValue", "UInt32Value", "DoubleValue", "StringValue", "EnumValue", "Int32Value"] {
+        if d.contains(&format!("{}: {} {{ value: None", field, ty)) {
+            return false;
+        }
+    }
+    true
+}
+fn s_text(h: bool, v: &str) -> String {
+    if h { format!("={}", hex(v)) } else { "~".into() }
+}
+fn s_num<T: std::fmt::Display>(h: bool, v: T) -> String {
+    if h { v.to_string() } else { "~".into() }
+}
+fn s_bool(h: bool, v: bool) -> String {
+    if h { (if v { "1" } else { "0" }).into() } else { "~".into() }
+}
+fn s_coord(c: &Coordinate) -> String {
+    format!("{}.{}.{}.{}", c.get_col_num(), c.get_row_num(), if *c.get_is_lock_col() { 1 } else { 0 }, if *c.get_is_lock_row() { 1 } else { 0 })
+}
+
+fn spec_hf(ws: &Worksheet) -> String {
+    let h = ws.get_header_footer().get_odd_header();
+    let f = ws.get_header_footer().get_odd_footer();
+    let g = GETTER_LEVEL.with(|g| g.get());
+    format!("{},{}", s_text(g || !format!("{:?}", h).contains("value: None"), h.get_value()), s_text(g || !format!("{:?}", f).contains("value: None"), f.get_value()))
+}
+fn spec_margins(ws: &Worksheet) -> String {
+    let m = ws.get_page_margins();
+    let d = format!("{:?}", m);
+    [("left", *m.get_left()), ("right", *m.get_right()), ("top", *m.get_top()), ("bottom", *m.get_bottom()), ("header", *m.get_header()), ("footer", *m.get_footer())]
+        .iter()
+        .map(|(k, v)| s_num(has(&d, k), v))
+        .collect::<Vec<_>>()
+        .join(",")
+}
+/// `None` = a colour the model's spec cannot express (stored rgb hidden behind an index)
+fn spec_color(c: &Color) -> Option<String> {
+    let d = format!("{:?}", c);
+    let (hi, ht, ha, hti) = (has(&d, "indexed"), has(&d, "theme_index"), has(&d, "argb"), has(&d, "tint"));
+    if GETTER_LEVEL.with(|g| g.get()) {
+        return Some(format!("{},{},{},{}", c.get_indexed(), c.get_theme_index(), hex(c.get_argb()), c.get_tint()));
+    }
+    if hi && ha {
+        return None;
+    }
+    Some(format!("{},{},{},{}", s_num(hi, c.get_indexed()), s_num(ht, c.get_theme_index()), s_text(ha, c.get_argb()), s_num(hti, c.get_tint())))
+}
+fn spec_tab(ws: &Worksheet) -> Option<String> {
+    match ws.get_tab_color() {
+        None => Some("none".into()),
+        Some(c) => spec_color(c),
+    }
+}
+fn spec_view(v: &SheetView) -> String {
+    let d = format!("{:?}", v);
+    let mut s = format!(
+        "{},{},{},{},{},{},{},{},{}",
+        s_bool(has(&d, "show_grid_lines"), *v.get_show_grid_lines()),
+        s_bool(has(&d, "tab_selected"), *v.get_tab_selected()),
+        s_num(has(&d, "workbook_view_id"), v.get_workbook_view_id()),
+        if has(&d, "view") { v.get_view().get_value_string().to_string() } else { "~".into() },
+        s_num(has(&d, "zoom_scale"), v.get_zoom_scale()),
+        s_num(has(&d, "zoom_scale_normal"), v.get_zoom_scale_normal()),
+        s_num(has(&d, "zoom_scale_page_layout_view"), v.get_zoom_scale_page_layout_view()),
+        s_num(has(&d, "zoom_scale_sheet_layout_view"), v.get_zoom_scale_sheet_layout_view()),
+        s_text(has(&d, "top_left_cell"), v.get_top_left_cell())
+    );
+    s.push(';');
+    match v.get_pane() {
+        None => s.push('~'),
+        Some(p) => {
+            let dp = format!("{:?}", p);
+            s.push_str(&format!(
+                "{},{},{},{},{}",
+                s_num(has(&dp, "horizontal_split"), p.get_horizontal_split()),
+                s_num(has(&dp, "vertical_split"), p.get_vertical_split()),
+                s_coord(p.get_top_left_cell()),
+                if has(&dp, "active_pane") { p.get_active_pane().get_value_string().to_string() } else { "~".into() },
+                if has(&dp, "state") { p.get_state().get_value_string().to_string() } else { "~".into() }
+            ));
+        }
+    }
+    for x in v.get_selection() {
+        let dx = format!("{:?}", x);
+        let sq = x.get_sequence_of_references().get_range_collection();
+        s.push_str(&format!(
+            ";{},{},{}",
+            if has(&dx, "pane") { x.get_pane().get_value_string().to_string() } else { "~".into() },
+            x.get_active_cell().map(s_coord).unwrap_or("~".into()),
+            if sq.is_empty() { "~".to_string() } else { sq.iter().map(|r| r.get_range()).collect::<Vec<_>>().join("+") }
+        ));
+    }
+    s
+}
+fn spec_views(ws: &Worksheet) -> String {
+    let l = ws.get_sheets_views().get_sheet_view_list();
+    if l.is_empty() {
+        "~".into()
+    } else {
+        l.iter().map(spec_view).collect::<Vec<_>>().join("|")
+    }
+}
+fn spec_font(f: &Font) -> Option<String> {
+    let d = format!("{:?}", f);
+    let g = GETTER_LEVEL.with(|g| g.get());
+    let hb = g || !d.contains("font_bold: Bold { val: BooleanValue { value: None");
+    let hi = g || !d.contains("font_italic: Italic { val: BooleanValue { value: None");
+    spec_color(f.get_color()).map(|c| format!("{},{},{}", s_bool(hb, *f.get_bold()), s_bool(hi, *f.get_italic()), c))
+}
+/// a row's own attributes (the `Debug` text is cut before the nested style, whose fields share names with the row's)
+fn spec_row(r: &Row) -> String {
+    let full = format!("{:?}", r);
+    let d = full.split(", style: ").next().unwrap_or("");
+    format!(
+        "{},{},{},{},{},{}",
+        r.get_row_num(),
+        s_num(has(d, "height"), r.get_height()),
+        s_num(has(d, "descent"), r.get_descent()),
+        s_bool(has(d, "thick_bot"), *r.get_thick_bot()),
+        s_bool(has(d, "custom_height"), *r.get_custom_height()),
+        s_bool(has(d, "hidden"), *r.get_hidden())
+    )
+}
+fn spec_col(c: &Column) -> String {
+    let full = format!("{:?}", c);
+    let d = full.split(", style: ").next().unwrap_or("");
+    format!("{},{},{}", c.get_width(), s_bool(has(d, "hidden"), *c.get_hidden()), s_bool(has(d, "best_fit"), *c.get_best_fit()))
+}
+fn style_is_empty(st: &Style) -> bool {
+    st.get_font().is_none() && st.get_fill().is_none() && st.get_borders().is_none() && st.get_alignment().is_none() && st.get_numbering_format().is_none() && st.get_protection().is_none()
+}
+fn sorted_cells(ws: &Worksheet) -> Vec<&Cell> {
+    let mut v: Vec<&Cell> = ws.get_cell_collection();
+    v.sort_by_key(|c| (*c.get_coordinate().get_row_num(), *c.get_coordinate().get_col_num()));
+    v
+}
+/// every stored cell that has a value / formula (V) or is blank AND has no style component (E.u): column, row, flags.
+/// Blank cells that carry a style object are left out on both sides: whether such a cell survives depends on the xf
+/// index its style resolves to (index 0 is written without `s=`), which the cell model's `styled` flag does not see —
+/// see the report (blank styled cells whose style equals the default decay over three generations, invisibly to the
+/// effective-formatting view).
+fn spec_cells(ws: &Worksheet) -> String {
+    let v: Vec<String> = sorted_cells(ws)
+        .iter()
+        .filter(|c| !c.get_cell_value().is_empty() || style_is_empty(c.get_style()))
+        .map(|c| format!("{}.{}.{}.u", c.get_coordinate().get_col_num(), c.get_coordinate().get_row_num(), if c.get_cell_value().is_empty() { "E" } else { "V" }))
+        .collect();
+    if v.is_empty() {
+        "~".into()
+    } else {
+        v.join(",")
+    }
+}
+/// the cells of a loaded sheet that carry a value or a formula
+fn kept_cells(ws: &Worksheet) -> String {
+    let v: Vec<String> = sorted_cells(ws)
+        .iter()
+        .filter(|c| is_kept(c))
+        .map(|c| format!("{}.{}", c.get_coordinate().get_col_num(), c.get_coordinate().get_row_num()))
+        .collect();
+    if v.is_empty() {
+        "~".into()
+    } else {
+        v.join(",")
+    }
+}
+
+/// values whose normal form is not the identity, put on a generated workbook through the public setters (none of
+/// them is visible through the getters `full_view` compares)
+fn twist(book: &mut Spreadsheet, rng: &mut Rng, out: &mut Out) {
+    for i in 0..book.get_sheet_count() {
+        let ws = book.get_sheet_mut(&i).unwrap();
+        match rng.below(4) {
+            0 => {
+                ws.get_header_footer_mut().get_odd_header_mut().set_value("");
+                out.count("twist.hf.empty-header");
+            }
+            1 => {
+                ws.get_header_footer_mut().get_odd_footer_mut().set_value("");
+                ws.get_header_footer_mut().get_odd_header_mut().set_value(" &L&\"Arial,Bold\"&12 a<b>& ");
+                out.count("twist.hf.empty-footer+padded-header");
+            }
+            _ => {}
+        }
+        if rng.chance(1, 3) {
+            ws.get_page_margins_mut().set_left(0.25).set_footer(0.0);
+            out.count("twist.margins.partly-set");
+        }
+        if rng.chance(1, 2) {
+            let views = ws.get_sheet_views_mut().get_sheet_view_list_mut();
+            if views.is_empty() {
+                views.push(SheetView::default());
+            }
+            let v = &mut views[0];
+            match rng.below(3) {
+                0 => {
+                    v.set_tab_selected(false);
+                    out.count("twist.view.tabSelected-false");
+                }
+                1 => {
+                    let mut p = Pane::default();
+                    p.set_vertical_split(1.0);
+                    let mut c = Coordinate::default();
+                    c.set_col_num(1).set_row_num(2);
+                    p.set_top_left_cell(c);
+                    if rng.chance(1, 2) {
+                        p.set_state(PaneStateValues::Frozen);
+                    }
+                    v.set_pane(p);
+                    out.count("twist.view.pane-without-enum-values");
+                }
+                _ => {
+                    v.set_zoom_scale(55);
+                    out.count("twist.view.zoom");
+                }
+            }
+        }
+        if rng.chance(1, 2) {
+            let (c, r) = (rng.range(1, 6) as u32, rng.range(1, 9) as u32);
+            let f = ws.get_cell_mut((c, r)).get_style_mut().get_font_mut();
+            f.set_bold(false);
+            if rng.chance(1, 2) {
+                f.set_italic(true);
+            }
+            out.count("twist.font.bold-false");
+        }
+        if rng.chance(1, 2) {
+            // a cell object that holds nothing: `Cell::write_to` skips it
+            let _ = ws.get_cell_mut((rng.range(9, 12) as u32, rng.range(13, 16) as u32));
+            out.count("twist.cells.blank-unstyled");
+        }
+        // flags explicitly false / height 0 on a row that has cells, flags explicitly false on a column
+        let first = ws.get_cell_collection().iter().map(|c| *c.get_coordinate().get_row_num()).min();
+        if let (Some(r), true) = (first, rng.chance(1, 2)) {
+            let row = ws.get_row_dimension_mut(&r);
+            row.set_hidden(false).set_custom_height(false);
+            if rng.chance(1, 2) {
+                row.set_height(0.0);
+            }
+            out.count("twist.row.flags-false");
+        }
+        if rng.chance(1, 2) {
+            let c = rng.range(1, 4) as u32;
+            ws.get_column_dimension_by_number_mut(&c).set_hidden(false).set_best_fit(false);
+            out.count("twist.col.flags-false");
+        }
+    }
+}
+
+/// `gen2 = false`: original -> generation 1 (the model's `norm` of the original must be what the implementation holds);
+/// `gen2 = true`: generation 1 -> generation 2 (the same request on generation 1; and, independently of the model, the
+/// two specs must be EQUAL: the second generation is a fixed point, has-value states included)
+fn norm_req(out: &mut Out, header: &str, gen2: bool, family: &str, spec0: &str, spec1: &str) {
+    let line = format!("c04 norm {} {}", family, spec0);
+    out.begin(&line);
+    out.end(&line, spec1, true);
+    let tag = if gen2 { "norm2" } else { "norm" };
+    out.count(&format!("{}.{}", tag, family));
+    if gen2 && family != "cells" {
+        if spec0 == spec1 {
+            out.oracle_ok();
+        } else {
+            out.oracle_fail(Fail::new("generation-2-not-a-fixed-point").with("op", header).with("family", family).with("generation1", spec0).with("generation2", spec1));
+        }
+    } else if spec0 != spec1 && family != "cells" {
+        out.count(&format!("{}.{}.not-identity", tag, family));
+    }
+}
+
+fn is_kept(c: &Cell) -> bool {
+    !c.get_cell_value().is_empty()
+}
+
+fn norm_tie(out: &mut Out, header: &str, gen2: bool, book0: &Spreadsheet, book1: &Spreadsheet) {
+    for i in 0..book0.get_sheet_count().min(book1.get_sheet_count()) {
+        let (w0, w1) = (book0.get_sheet(&i).unwrap(), book1.get_sheet(&i).unwrap());
+        if !gen2 {
+            // independently of the model: generation 1 shows through the getters what the original showed
+            let g0 = getter_level(|| format!("hf={} margins={} views={}", spec_hf(w0), spec_margins(w0), spec_views(w0)));
+            let g1 = getter_level(|| format!("hf={} margins={} views={}", spec_hf(w1), spec_margins(w1), spec_views(w1)));
+            if g0 == g1 {
+                out.oracle_ok();
+            } else {
+                out.oracle_fail(Fail::new("first-generation-getters-differ").with("op", header).with("sheet", i.to_string()).with("original", g0).with("generation1", g1));
+            }
+        }
+        norm_req(out, header, gen2, "hf", &spec_hf(w0), &spec_hf(w1));
+        norm_req(out, header, gen2, "margins", &spec_margins(w0), &spec_margins(w1));
+        norm_req(out, header, gen2, "views", &spec_views(w0), &spec_views(w1));
+        match (spec_tab(w0), spec_tab(w1)) {
+            (Some(a), Some(b)) => norm_req(out, header, gen2, "tab", &a, &b),
+            _ => out.count("norm.tab.unmodelled"),
+        }
+        norm_req(out, header, gen2, "cells", &spec_cells(w0), &kept_cells(w1));
+        if sorted_cells(w0).iter().any(|c| c.get_cell_value().is_empty() && style_is_empty(c.get_style())) {
+            out.count(if gen2 { "norm2.cells.blank-unstyled-present" } else { "norm.cells.blank-unstyled-dropped" });
+        }
+        if sorted_cells(w0).iter().any(|c| c.get_cell_value().is_empty() && !style_is_empty(c.get_style())) {
+            out.count(if gen2 { "norm2.cells.blank-styled-left-out" } else { "norm.cells.blank-styled-left-out" });
+        }
+        // rows and columns that exist on both sides (an attribute-less row without cells is not written at all)
+        let mut rows0: Vec<&Row> = w0.get_row_dimensions();
+        rows0.sort_by_key(|r| *r.get_row_num());
+        for r0 in rows0.iter().take(12) {
+            if let Some(r1) = w1.get_row_dimension(r0.get_row_num()) {
+                norm_req(out, header, gen2, "row", &spec_row(r0), &spec_row(r1));
+            }
+        }
+        for c0 in w0.get_column_dimensions().iter().take(12) {
+            if let Some(c1) = w1.get_column_dimension_by_number(c0.get_col_num()) {
+                norm_req(out, header, gen2, "col", &spec_col(c0), &spec_col(c1));
+            }
+        }
+        let mut n = 0;
+        for c in sorted_cells(w0) {
+            if n >= 8 {
+                break;
+            }
+            let co = c.get_coordinate().get_coordinate();
+            if let (Some(f0), Some(f1)) = (c.get_style().get_font(), w1.get_cell(co.as_str()).and_then(|x| x.get_style().get_font())) {
+                match (spec_font(f0), spec_font(f1)) {
+                    (Some(a), Some(b)) => norm_req(out, header, gen2, "font", &a, &b),
+                    _ => out.count("norm.font.unmodelled"),
+                }
+                n += 1;
+            }
+        }
+    }
+}
+
 pub fn run_case(out: &mut Out, header: &str) {
     let a: Vec<&str> = header.split(' ').collect();
     out.begin(header);
     out.end(header, "ok", false);
     out.count("programs");
     let light = a.get(4) == Some(&"light");
-    let book0 = match book_of(&a) {
+    let mut book0 = match book_of(&a) {
         Ok(b) => b,
         Err(e) => {
             out.oracle_fail(Fail::new("case-build-failed").with("op", header).with("detail", e));
             return;
         }
     };
+    let generated = a.get(2) == Some(&"gen");
+    if generated {
+        let seed: u64 = header.bytes().fold(11u64, |h, b| h.wrapping_mul(137).wrapping_add(b as u64));
+        let mut rng = Rng::new(seed);
+        let _ = guard(|| twist(&mut book0, &mut rng, out));
+    }
     let v0 = guard(|| full_view(&book0)).unwrap_or("view-panicked".into());
     // generations
     let mut views = vec![];
@@ -138,6 +498,12 @@ pub fn run_case(out: &mut Out, header: &str) {
     } else {
         let (g, d) = if views[0] != views[1] { (2, first_diff(&views[0], &views[1])) } else { (3, first_diff(&views[1], &views[2])) };
         out.oracle_fail(Fail::new("generation-drift").with("op", header).with("generation", g.to_string()).with("detail", d));
+    }
+    // generation 1 is the model's normal form of the original, family by family (generated workbooks)
+    if generated {
+        let (b1, b2) = (books[0].clone(), books[1].clone());
+        let _ = guard(|| norm_tie(out, header, false, &book0, &b1));
+        let _ = guard(|| norm_tie(out, header, true, &b1, &b2));
     }
     // the first generation shows what the original showed (semantic projection: blank unstyled cells carry nothing)
     let p0 = guard(|| wb::view(&book0)).unwrap_or_default();
